@@ -126,6 +126,9 @@ func init() {
 					out = append(out, obs.Violation{Class: "block-difference-recall", Brief: fmt.Sprintf("%d of %d planted repeats carrying one block of five differences (%s; repeat 1.3..1.9 x the minimum hit length) were not recovered; on the pinned tree the rate is below 1%%", bmissed, btried, kind)})
 				}
 			}
+			if utried, umissed := c["plants_behind_a_filter_with_threshold_one_recovered"]+c["plants_behind_a_filter_with_threshold_one_missed"], c["plants_behind_a_filter_with_threshold_one_missed"]; umissed >= 6 && umissed*50 > utried {
+				out = append(out, obs.Violation{Class: "threshold-one-recall", Brief: fmt.Sprintf("%d of %d planted repeats were not recovered in runs whose optimised filter has a q-gram threshold of 1; on the pinned tree the rate is below 0.1%%", umissed, utried)})
+			}
 			for _, kind := range []string{"n_gap", "unrelated_gap"} {
 				atried, amissed := c["arms_next_to_"+kind+"_recovered"]+c["arms_next_to_"+kind+"_missed"], c["arms_next_to_"+kind+"_missed"]
 				if amissed >= 6 && amissed*20 > atried {
@@ -134,7 +137,7 @@ func init() {
 			}
 			return out
 		},
-		Assumptions: []string{"two repeats a few letters apart on one diagonal end up in one trapezoid; whether the second is reported depends on the aligner's recursion into the rest of the trapezoid (unrelated letters between them: the unchanged pipeline loses about 1 in 2500 at 15..16 letters) or on the merger splitting the trapezoid (run of N in the query, which the statement's 'otherwise random sequences' does not strictly cover): both kinds are judged as populations, a run is a violation when at least 6 and more than 5% of one kind are missed. Runs of N in the target or away from the repeats are not generated (the unchanged pipeline loses about 1.5% of intact repeats next to them at word sizes 5..6)",
+		Assumptions: []string{"when Optimise settles for parameters whose q-gram threshold n+1-k(e+1) is 1 (minimum identity 0.80 with word size 5 or more), every shared word is a filter hit, the merged trapezoids are as large as the whole comparison and the aligner finds what its recursion happens to start on: the unchanged pipeline then loses a plain planted repeat now and then (seen: an exact copy of 61 letters at minimum length 50, about 1 plant in 3000). That is a defect with respect to the statement and is listed in known_findings.txt (class planted-repeat-missed-behind-threshold-one-filter); so that it cannot hide a larger loss, a run in which at least 6 and more than 2% of the plants behind such filters are missed is a violation of its own (threshold-one-recall)","two repeats a few letters apart on one diagonal end up in one trapezoid; whether the second is reported depends on the aligner's recursion into the rest of the trapezoid (unrelated letters between them: the unchanged pipeline loses about 1 in 2500 at 15..16 letters) or on the merger splitting the trapezoid (run of N in the query, which the statement's 'otherwise random sequences' does not strictly cover): both kinds are judged as populations, a run is a violation when at least 6 and more than 5% of one kind are missed. Runs of N in the target or away from the repeats are not generated (the unchanged pipeline loses about 1.5% of intact repeats next to them at word sizes 5..6)",
 			"aligners set up with Share hold only the index and the two parameter structs in common, none of which a search writes: they are taken to be usable at the same time from one goroutine each, as a driver with one index and many queries runs them",
 			"the statement does not say whether hit coordinates count from the first letter or from the sequence's Offset: both are accepted (the pinned tree counts from the first letter); lower-case letters are the same letters under alphabet.DNA, but only sequences that are in one case throughout are generated (a lower-case copy of an upper-case repeat is not found by the unchanged pipeline)",
 			"a single block of five differences costs exactly what the aligner's drop-off tolerates, so repeats carrying one (and too short for either arm to make a hit alone) sit on the algorithm's boundary: the unchanged pipeline loses about 1 in 200 of them; they are judged as a population, per kind of block: a run is a violation when at least 6 and more than 5% of one kind are missed",
@@ -472,6 +475,9 @@ func c15Case(r *obs.Run, i int) {
 		return
 	}
 	w["filter_params"] = *pa.FilterParams
+	// the q-gram threshold of the optimised filter: at 1 every shared word is a filter hit, the merger glues them into a
+	// few trapezoids as large as the whole comparison and the aligner samples those rather than searching them
+	unselective := pa.FilterParams.MinMatch+1-pa.FilterParams.WordSize*(pa.FilterParams.MaxError+1) <= 1
 	if pa.FilterParams.MinMatch != pl.MinHitLen {
 		r.Count("runs_where_optimise_shortened_the_filter_seed", 1)
 	}
@@ -704,6 +710,19 @@ func c15Case(r *obs.Run, i int) {
 				r.Count("arms_next_to_"+p.Arm+"_recovered", 1)
 			} else {
 				r.Count("arms_next_to_"+p.Arm+"_missed", 1)
+			}
+			continue
+		}
+		if unselective { // likewise: see the assumptions
+			if found {
+				r.Count("plants_behind_a_filter_with_threshold_one_recovered", 1)
+			} else {
+				r.Count("plants_behind_a_filter_with_threshold_one_missed", 1)
+				// a miss the pinned tree itself produces now and then: listed in known_findings.txt under this class; more
+				// than a few of them in one run is a violation of its own (see Aggregate)
+				w["hits_forward"] = fmt.Sprint(hits[0])
+				w["hits_complement"] = fmt.Sprint(hits[1])
+				fail("planted-repeat-missed-behind-threshold-one-filter", fmt.Sprintf("planted repeat %+v (length %d, %d substitutions, %d indels) is not covered to 80%% by any hit on its strand (best %.0f%%); the optimised filter %+v has a q-gram threshold of 1", p, p.A1-p.A0, p.Subs, p.Indels, 100*best, *pa.FilterParams))
 			}
 			continue
 		}
